@@ -105,6 +105,7 @@ type c11Client struct {
 	wantBody []byte
 	raw      []byte
 	gone     bool // client closed it itself
+	parked   bool // late request on a connection that stays unserved until a drain without limit ends
 	vanished bool // ... while its exchange was in flight
 	sentLate string // vid of a request sent after closing was proven
 	echoOK   *bool
@@ -143,7 +144,7 @@ func c11Origin() (*Peer, error) {
 func runC11(c C11Case) []vstat.Failure {
 	fails := runC11once(c)
 	for _, f := range fails {
-		if strings.Contains(f.Key, ":late-request-forwarded") || strings.Contains(f.Key, ":timeout") || strings.Contains(f.Key, ":inflight-closed-only-when-drain-ended") {
+		if strings.Contains(f.Key, ":late-request-forwarded") || strings.Contains(f.Key, ":timeout") || strings.Contains(f.Key, ":inflight-closed-only-when-drain-ended") || strings.Contains(f.Key, ":run-hangs") {
 			st.Inconclusive()
 			return runC11once(c) // timing-dependent clauses must fail twice in a row
 		}
@@ -329,9 +330,9 @@ func runC11once(c C11Case) (fails []vstat.Failure) {
 	// ---- shutdown begins
 	var probe *net.TCPConn
 	shutdownRet := make(chan error, 1)
+	tShutdown := time.Now() // taken before the context exists, so that no pause between the two can read as an early return
 	ctx, cancel := context.WithTimeout(context.Background(), deadline)
 	defer cancel()
-	tShutdown := time.Now()
 	var drainEnd atomic.Int64 // when Shutdown returned (bare) / Run returned (forwarder)
 	var lateClosed []string   // in-flight exchanges whose connection stayed open long after the response
 	if bare != nil {
@@ -516,7 +517,16 @@ func runC11once(c C11Case) (fails []vstat.Failure) {
 		closed, extra, _ := WaitClosed(cl.conn, cl.br, 3*time.Second)
 		if len(extra) > 0 {
 			fails = append(fails, vstat.Failf(key("late-request-answered"), "connection %d (%s): a request sent after shutdown had begun was answered: %q", i, cl.spec.Phase, clip(extra)))
+		} else if !closed && fw != nil && c.NoLimit && !signalled && (cl.spec.Phase == "idle-new" || cl.spec.Phase == "pp-pending") {
+			// A connection that had not exchanged anything before shutdown began may not have been registered yet when
+			// Shutdown took the connection table: it is then "accepted in the meantime" - parked for as long as the drain
+			// lasts and closed without service when it ends. A drain without a limit ends when the harness lets go of the
+			// other connections, so this one is judged then: closed by the proxy, never answered.
+			st.Class("late-request-on-a-connection-parked-until-the-drain-ends")
+			cl.parked = true
+			continue
 		} else if !closed {
+			dumpGoroutines("c11-late-open")
 			fails = append(fails, vstat.Failf(key("late-request-not-closed"), "connection %d (%s): connection still open 3 s after a request was sent during shutdown", i, cl.spec.Phase))
 		}
 		cl.gone = true
@@ -557,8 +567,8 @@ func runC11once(c C11Case) (fails []vstat.Failure) {
 		}
 		if got && ret != nil {
 			// asked again, Shutdown answers the same question again: success only once everything is closed
+			t2 := time.Now() // before the context exists: a pause between the two lines must not read as an early return
 			ctx2, cancel2 := context.WithTimeout(context.Background(), 150*time.Millisecond)
-			t2 := time.Now()
 			ret2 := bare.Shutdown(ctx2)
 			took2 := time.Since(t2)
 			cancel2()
@@ -618,7 +628,7 @@ func runC11once(c C11Case) (fails []vstat.Failure) {
 		if c.NoLimit && !signalled {
 			// everything in flight has been judged: the harness lets go of what it still holds, the drain can end
 			for _, cl := range clients {
-				if !cl.gone {
+				if !cl.gone && !cl.parked {
 					cl.conn.Close()
 					cl.gone = true
 				}
@@ -628,15 +638,24 @@ func runC11once(c C11Case) (fails []vstat.Failure) {
 		select {
 		case <-fw.Done():
 		case <-time.After(runWait):
+			dumpGoroutines("c11-run-hangs")
+			if why := lag.starved(); why != "" {
+				st.Inconclusive()
+				st.Note("C11: Run not back %v after the drain could end; not judged: %s", runWait, why)
+				return fails
+			}
 			fails = append(fails, vstat.Failf(key("run-hangs"), "Run did not return %v after the %v drain time-out", 5*time.Second, deadline))
 		}
 		for i, cl := range clients {
 			if cl.gone {
 				continue
 			}
-			closed, _, _ := WaitClosed(cl.conn, cl.br, 2*time.Second)
+			closed, extra, _ := WaitClosed(cl.conn, cl.br, 2*time.Second)
 			if !closed {
 				fails = append(fails, vstat.Failf(key("close-leaves-connection"), "after Run returned connection %d (%s) is still open", i, cl.spec.Phase))
+			}
+			if cl.parked && len(extra) > 0 {
+				fails = append(fails, vstat.Failf(key("late-request-answered"), "connection %d (%s): a request sent after shutdown had begun was answered when the drain ended: %q", i, cl.spec.Phase, clip(extra)))
 			}
 		}
 		if v := fw.Gather()["forwarder_listener_cx_active{}"]; v != 0 {
